@@ -27,6 +27,10 @@
    valid, no atom of it is executed on the current branch and no atom of it is pending already (in particular itself:
    exactly once, also for repetitions inside the batch and repeated batches); when two transactions of one batch share
    an atom (a box and its own sub-transaction) either may win.  Nothing else happens to the pool.
+   A transaction the body check refuses is skipped - the ones before AND behind it in the batch are handled as if it were
+   not there - and it is no reason to end the session: a batch of well-framed transactions (valid ones and ones that are
+   merely refused by the body check: expired while relayed, not valid yet, other chain, under-priced, a box around such a
+   one) never costs the sender its connection (conn; PeerKept).
    A block that joins the current branch takes every pending transaction that shares an atom with it out of the pool;
    the side block's transactions that are not executed on the current branch become pending (the engine's job; modelled
    because it produces the status "side-only + pending").
@@ -36,10 +40,13 @@
                         the current branch the whole batch is dropped,
      BugAddAfterInsert  Dev_TxAddedAfterItsBlock (found here, repaired in /repo 346a7d7; the monitor keeps the named deviation, it is not
                         listed any more): in RaceAdd the goroutines act on what they saw before the block,
+     BugBatchAbort      the seeded class "a refused transaction is an error of the message": the handler gives up at the first
+                        transaction the body check refuses - the valid ones behind it never reach the pool - and the
+                        dispatcher closes the sender's session because of the returned error,
      BugStaleSubIndex   Dev_BoxSubIndexStale: when a pending box leaves the pool because a block packaged ONE of its atoms,
                         its other atoms are treated as pending for ever. *)
 EXTENDS Naturals, Sequences, FiniteSets, TLC
-CONSTANTS NB, Kind, Subs, Blk, SideH, SideTxs, Palette, MaxLen, RaceLen, BugBatchAny, BugAddAfterInsert, BugStaleSubIndex
+CONSTANTS NB, Kind, Subs, Blk, SideH, SideTxs, Palette, MaxLen, RaceLen, BugBatchAny, BugAddAfterInsert, BugStaleSubIndex, BugBatchAbort
 
 Tx == DOMAIN Kind
 Range(s) == {s[i] : i \in DOMAIN s}
@@ -58,12 +65,13 @@ VARIABLES world,    \* the constants, for the harness that builds the real trans
           wait,     \* heights waiting in the block cache
           pool,     \* pending transactions
           ghost,    \* (BugStaleSubIndex only) atoms the pool wrongly believes pending
-          ok        \* history: every batch so far was handled by the per-transaction rule (StepOK)
-vars == <<world, todo, stodo, has, side, wait, pool, ghost, ok>>
+          ok,       \* history: every batch so far was handled by the per-transaction rule (StepOK)
+          conn      \* the sender's session is still open (the node has not closed it)
+vars == <<world, todo, stodo, has, side, wait, pool, ghost, ok, conn>>
 
 Init == /\ world = [kind |-> Kind, subs |-> Subs, blk |-> Blk, sideh |-> SideH, sidetxs |-> SideTxs]
         /\ todo = 1..NB /\ stodo = (SideH > 0) /\ has = {} /\ side = FALSE /\ wait = {}
-        /\ pool = {} /\ ghost = {} /\ ok = TRUE
+        /\ pool = {} /\ ghost = {} /\ ok = TRUE /\ conn = TRUE
 
 Known(h) == h = 0 \/ h \in has
 DrainEnabled == \E h \in wait : Known(h - 1)
@@ -76,9 +84,13 @@ Outcomes(P, G, cand) ==
         Indep(Y) == \A y \in Y : ~Conflict(y, Y)
         Maximal(Y) == \A z \in free \ Y : Conflict(z, Y)
     IN {P \cup X : X \in {Y \in SUBSET free : Indep(Y) /\ Maximal(Y)}}
+\* the transactions of a batch the handler gets to look at: all of them
+FirstBad(b) == LET I == {i \in DOMAIN b : ~Valid(b[i])} IN IF I = {} THEN Len(b) + 1 ELSE CHOOSE i \in I : \A j \in I : i <= j
+Seen(b) == IF BugBatchAbort THEN {b[i] : i \in 1..(FirstBad(b) - 1)} ELSE Range(b)
+ConnAfter(b) == conn /\ ~(BugBatchAbort /\ FirstBad(b) <= Len(b))
 \* what a batch may add, given the executed atoms E
 Cands(b, E) == IF BugBatchAny /\ \E t \in Range(b) : Atoms(t) \cap E # {} THEN {}
-               ELSE {t \in Range(b) : Valid(t) /\ Atoms(t) \cap E = {}}
+               ELSE {t \in Seen(b) : Valid(t) /\ Atoms(t) \cap E = {}}
 \* the blocks of heights hs join the current branch
 Victims(P, hs) == {t \in P : Atoms(t) \cap ExecOn(hs) # {}}
 Drop(P, hs) == P \ Victims(P, hs)
@@ -95,7 +107,7 @@ StepOK(b, E, P, Q, V) ==
 
 (* ---- blocks ---- *)
 DeliverBlock(h) ==
-    /\ h \in todo /\ todo' = todo \ {h} /\ UNCHANGED <<world, stodo, side, ok>>
+    /\ h \in todo /\ todo' = todo \ {h} /\ UNCHANGED <<world, stodo, side, ok, conn>>
     /\ IF Known(h - 1) THEN Join({h}) /\ UNCHANGED wait
        ELSE wait' = wait \cup {h} /\ UNCHANGED <<has, pool, ghost>>
 
@@ -103,17 +115,17 @@ DeliverBlock(h) ==
 RECURSIVE Run(_, _)
 Run(hs, w) == IF \E h \in w : h - 1 \in hs THEN LET h == CHOOSE x \in w : x - 1 \in hs IN Run(hs \cup {h}, w \ {h}) ELSE hs
 TimerDrain ==
-    /\ DrainEnabled /\ UNCHANGED <<world, todo, stodo, side, ok>>
+    /\ DrainEnabled /\ UNCHANGED <<world, todo, stodo, side, ok, conn>>
     /\ LET all == Run(has, wait) IN Join(all \ has) /\ wait' = wait \ all
 
 DeliverSide ==
     /\ stodo /\ SideH \in has /\ ~DrainEnabled
-    /\ stodo' = FALSE /\ side' = TRUE /\ UNCHANGED <<world, todo, has, wait, ghost, ok>>
+    /\ stodo' = FALSE /\ side' = TRUE /\ UNCHANGED <<world, todo, has, wait, ghost, ok, conn>>
     /\ \E R \in Outcomes(pool, ghost, {t \in Range(SideTxs) : Atoms(t) \cap ExecOn(has) = {}}) : pool' = R
 
 (* ---- batches ---- *)
 DeliverTxs(b) ==
-    /\ b \in Batches /\ ~DrainEnabled
+    /\ b \in Batches /\ ~DrainEnabled /\ conn' = ConnAfter(b)
     /\ UNCHANGED <<world, todo, stodo, has, side, wait, ghost>>
     /\ \E R \in Outcomes(pool, ghost, Cands(b, ExecOn(has))) : pool' = R
     /\ ok' = (ok /\ pool \subseteq pool' /\ StepOK(b, ExecOn(has), pool, pool', {}))
@@ -122,7 +134,7 @@ Ready(h) == h \in todo /\ Known(h - 1) /\ ~DrainEnabled
 
 \* Whatever the interleaving, the outcome must be that of handling the two messages one after the other, in one of the two orders.
 RaceAdd(b, h) ==
-    /\ b \in RaceBatches /\ Ready(h)
+    /\ b \in RaceBatches /\ Ready(h) /\ conn' = ConnAfter(b)
     /\ todo' = todo \ {h} /\ has' = has \cup {h} /\ UNCHANGED <<world, stodo, side, wait>>
     /\ IF BugAddAfterInsert
        THEN \E R \in Outcomes(pool, ghost, Cands(b, ExecOn(has))) :        \* decided before the block, added after it
@@ -134,7 +146,7 @@ RaceAdd(b, h) ==
     /\ ok' = (ok /\ Drop(pool, {h}) \subseteq pool' /\ StepOK(b, ExecOn(has \cup {h}), pool, pool', Victims(pool \cup Range(b), {h})))
 
 RaceInsert(b, h) ==
-    /\ b \in RaceBatches /\ Ready(h)
+    /\ b \in RaceBatches /\ Ready(h) /\ conn' = ConnAfter(b)
     /\ todo' = todo \ {h} /\ has' = has \cup {h} /\ UNCHANGED <<world, stodo, side, wait>>
     /\ \E R \in Outcomes(pool, ghost, Cands(b, ExecOn(has))) :             \* batch, then block
            pool' = Drop(R, {h}) /\ ghost' = GhostAfter(R, ghost, {h})
@@ -152,6 +164,8 @@ Spec == Init /\ [][Next]_vars
 Exec == ExecOn(has)
 \* every valid transaction of every received batch reached the pool (and nothing else did)
 TxReachesPool == ok
+\* well-framed batches never cost the sender its connection
+PeerKept == conn
 \* nothing that is executed on the current branch is pending (a miner would package it again)
 PoolClean == \A t \in pool : Atoms(t) \cap Exec = {}
 \* pending exactly once: no atom is pending twice (alone and inside a box, or inside two boxes)
@@ -163,5 +177,5 @@ Quiescent == todo = {} /\ ~stodo /\ wait = {}
 \* whatever the order was, in the end the chain has the whole segment
 Converges == Quiescent => has = 1..NB /\ (SideH > 0 => side)
 TypeOK == /\ todo \subseteq 1..NB /\ has \subseteq 1..NB /\ wait \subseteq 1..NB /\ pool \subseteq Tx /\ ghost \subseteq Tx
-          /\ ok \in BOOLEAN
+          /\ ok \in BOOLEAN /\ conn \in BOOLEAN
 ====
